@@ -22,6 +22,7 @@ type Entry struct {
 	Amt    *big.Int `json:"-"`
 	Unlock int64    `json:"unlock"` // time (stake, htlc) or height (fusion); 0 = any time
 	Alt    string   `json:"alt,omitempty"`
+	Reg    int64    `json:"reg"` // registration time (pillar, sentinel: the revoke window is periodic from here)
 }
 
 func storageOf(ms store.Momentum, a types.Address) db.DB {
@@ -73,7 +74,7 @@ func Liabilities(ms store.Momentum) []Entry {
 	// pillars: collateral of active pillars, deposited QSR
 	if list, err := definition.GetPillarsList(storageOf(ms, types.PillarContract), true, definition.AnyPillarType); err == nil {
 		for _, p := range list {
-			out = append(out, Entry{C: types.PillarContract.String(), Kind: "pillar", Id: p.Name, Owner: p.StakeAddress.String(), T: znn, Amt: p.Amount})
+			out = append(out, Entry{C: types.PillarContract.String(), Kind: "pillar", Id: p.Name, Owner: p.StakeAddress.String(), T: znn, Amt: p.Amount, Reg: p.RegistrationTime})
 		}
 	}
 	for _, c := range []types.Address{types.PillarContract, types.SentinelContract} {
@@ -94,8 +95,8 @@ func Liabilities(ms store.Momentum) []Entry {
 	// sentinels
 	definition.IterateSentinelEntries(storageOf(ms, types.SentinelContract), func(s *definition.SentinelInfo) error {
 		if s.RevokeTimestamp == 0 {
-			out = append(out, Entry{C: types.SentinelContract.String(), Kind: "sentinel-znn", Id: s.Owner.String(), Owner: s.Owner.String(), T: znn, Amt: s.ZnnAmount})
-			out = append(out, Entry{C: types.SentinelContract.String(), Kind: "sentinel-qsr", Id: s.Owner.String(), Owner: s.Owner.String(), T: qsr, Amt: s.QsrAmount})
+			out = append(out, Entry{C: types.SentinelContract.String(), Kind: "sentinel-znn", Id: s.Owner.String(), Owner: s.Owner.String(), T: znn, Amt: s.ZnnAmount, Reg: s.RegistrationTimestamp})
+			out = append(out, Entry{C: types.SentinelContract.String(), Kind: "sentinel-qsr", Id: s.Owner.String(), Owner: s.Owner.String(), T: qsr, Amt: s.QsrAmount, Reg: s.RegistrationTimestamp})
 		}
 		return nil
 	})
@@ -117,6 +118,9 @@ type Released struct {
 	T      string `json:"t"`
 	Amt    Digits `json:"amt"`
 	Unlock int64  `json:"unlock"`
+	Reg    int64  `json:"reg"`
+	Lock   int64  `json:"lock"` // periodic revoke window: locked for Lock seconds, revocable for Win seconds, from Reg on (0/0 = not applicable)
+	Win    int64  `json:"win"`
 }
 type Appeared struct {
 	Kind  string `json:"kind"`
@@ -127,10 +131,11 @@ type Pay struct {
 	To  string `json:"to"`
 	T   string `json:"t"`
 	Amt Digits `json:"amt"`
+	Ctx int64  `json:"ctx"` // time of the momentum the paying contract receive executed against (0 = unknown)
 }
 
 // EntryDiff compares the locked entries before and after a momentum.
-func EntryDiff(prev, cur []Entry) ([]Released, []Appeared) {
+func EntryDiff(prev, cur []Entry, windows bool) ([]Released, []Appeared) {
 	key := func(e Entry) string { return e.C + "|" + e.Kind + "|" + e.Id + "|" + e.Owner }
 	amt := func(e Entry) *big.Int {
 		if e.Amt == nil || e.Amt.Sign() < 0 {
@@ -153,7 +158,16 @@ func EntryDiff(prev, cur []Entry) ([]Released, []Appeared) {
 			left = amt(n)
 		}
 		if d := new(big.Int).Sub(amt(e), left); d.Sign() > 0 {
-			rel = append(rel, Released{C: e.C, Kind: e.Kind, Owner: e.Owner, Alt: e.Alt, T: e.T, Amt: ToDigits(d), Unlock: e.Unlock})
+			r := Released{C: e.C, Kind: e.Kind, Owner: e.Owner, Alt: e.Alt, T: e.T, Amt: ToDigits(d), Unlock: e.Unlock, Reg: e.Reg}
+			if windows {
+				switch e.Kind {
+				case "pillar":
+					r.Lock, r.Win = constants.PillarEpochLockTime, constants.PillarEpochRevokeTime
+				case "sentinel-znn", "sentinel-qsr":
+					r.Lock, r.Win = constants.SentinelLockTimeWindow, constants.SentinelRevokeTimeWindow
+				}
+			}
+			rel = append(rel, r)
 		}
 	}
 	for _, e := range cur {
@@ -169,19 +183,21 @@ func EntryDiff(prev, cur []Entry) ([]Released, []Appeared) {
 }
 
 // ContractPays lists the sends of embedded contracts among the blocks of a momentum (descendants included).
-func ContractPays(blocks []*RawBlock) []Pay {
+func ContractPays(blocks []*RawBlock, timeOf func(height uint64) int64) []Pay {
 	out := []Pay{}
-	var visit func(b *RawBlock)
-	visit = func(b *RawBlock) {
-		if b.BlockType == 4 { // nom.BlockTypeContractSend
-			out = append(out, Pay{C: b.Address, To: b.ToAddress, T: b.TokenStandard, Amt: ToDigits(b.Amt())})
+	for _, b := range blocks {
+		if b.BlockType != 5 { // nom.BlockTypeContractReceive: its descendants are the contract's sends
+			continue
+		}
+		ctx := int64(0)
+		if timeOf != nil {
+			ctx = timeOf(b.MomentumAck.Height)
 		}
 		for _, d := range b.DescendantBlocks {
-			visit(d)
+			if d.BlockType == 4 { // nom.BlockTypeContractSend
+				out = append(out, Pay{C: d.Address, To: d.ToAddress, T: d.TokenStandard, Amt: ToDigits(d.Amt()), Ctx: ctx})
+			}
 		}
-	}
-	for _, b := range blocks {
-		visit(b)
 	}
 	return out
 }
@@ -322,8 +338,13 @@ func StandardObserver(epochMomentums int64) func(p *Projector, h uint64, ms stor
 	return func(p *Projector, h uint64, ms store.Momentum, ev Event) {
 		entries := Liabilities(ms)
 		if havePrev && p.LastRaw != nil {
-			ev["rel"], ev["app"] = EntryDiff(prev, entries)
-			ev["pays"] = ContractPays(p.LastRaw.Blocks)
+			ev["rel"], ev["app"] = EntryDiff(prev, entries, epochMomentums > 0)
+			ev["pays"] = ContractPays(p.LastRaw.Blocks, func(h uint64) int64 {
+				if m, err := ms.GetMomentumByHeight(h); err == nil && m != nil {
+					return m.Timestamp.Unix()
+				}
+				return 0
+			})
 		}
 		prev, havePrev = entries, true
 		ev["liab"] = LiabSums(entries)
